@@ -220,7 +220,12 @@ func runC13(c *ctx) error {
 			r.Direct = append(r.Direct, out.Direct{Oracle: oracle, What: what, Case: desc})
 		}
 		if len(expected) == 0 {
+			// every queued operation has expired: either nothing is anchored (no anchor string, no files), or what is
+			// anchored reads back as zero operations - never an anchor string that the library itself cannot read
 			r.Count("special", "all-expired-batch")
+			if info.AnchorString != "" && (rerr != nil || len(rb) != 0) {
+				fail("all_expired_batch_anchors_nothing_unreadable", fmt.Sprintf("anchor string %q: read back %d operations, err=%v", info.AnchorString, len(rb), rerr))
+			}
 		} else if rerr != nil {
 			fail("read_back_succeeds", rerr.Error())
 		} else {
